@@ -493,6 +493,12 @@ func cmdCheck(args []string) int {
 	root := verifRoot()
 	start := time.Now()
 	p, err := vc.Load(repoDir(), filepath.Join(root, "stubs"), nil)
+	for attempt := 1; err != nil && attempt < 3; attempt++ {
+		// go/packages runs the go command; a transient failure of that step (seen once under heavy load) is retried
+		fmt.Fprintln(os.Stderr, "govc: load failed, retrying:", err)
+		time.Sleep(3 * time.Second)
+		p, err = vc.Load(repoDir(), filepath.Join(root, "stubs"), nil)
+	}
 	if err != nil {
 		// a tree that does not load cannot be checked; this is reported as a failure of the check itself
 		fmt.Println("govc: cannot load", repoDir(), ":", err)
